@@ -4,15 +4,19 @@
 From Coq Require Import QArith Qabs List Bool Arith ZArith.
 Local Close Scope Q_scope.
 Local Open Scope nat_scope.
-From ART Require Import Num Vec Search Kernel BaseArt Fuzzy.
+From ART Require Import Num Vec Search Kernel BaseArt Fuzzy ART2A ART1.
 Import ListNotations.
 
 Inductive kspec :=
-| KFuzzy (alpha beta : Q).
+| KFuzzy (alpha beta : Q)
+| KART2A (alpha beta : Q)
+| KART1 (L : Q).
 
 Definition kernel_of (k : kspec) : Kernel QN :=
   match k with
   | KFuzzy a b => @fuzzyK QN a b
+  | KART2A a b => @art2K QN a b
+  | KART1 l => @art1K QN l
   end.
 
 Record vspec := mkVspec { v_tbl : list bool; v_a : nat; v_b : nat }.
